@@ -14,7 +14,7 @@ pub fn meta() -> Meta {
     Meta {
         id: "C13",
         level: "exploration",
-        rule: "real generic_modes::weed (file -> file, --min-freq 0) on built files at k in {7,31,33} (thorough: + 9, 63), both strand modes, the strands-merged file additionally with its rows stored in three different rotations of key order (row order carries no meaning), --reverse on and off, against the model (kept rows = rows whose key is / is not a split k-mer of the weed file): weed sets = every window of length k..k+4 of every sample record on a position grid, every union of two such windows from a reduced grid (this includes a record of length exactly k next to a longer one), each as is / reverse-complemented / with an N substituted / lower-case, plus an unrelated sequence, a whole sample and a weed file without any k-mer (must be refused, file unchanged). Every kept row must be byte-identical incl. its stored count, names unchanged; a second application must change nothing; weed and reverse-weed must partition the file. CLI family for in-place vs -o. Non-trivial = the weed set removes at least one and keeps at least one k-mer.".into(),
+        rule: "real generic_modes::weed (file -> file, --min-freq 0) on built files at k in {7,31,33} (thorough: + 9, 63), both strand modes, the strands-merged file additionally with its rows stored in three different rotations of key order (row order carries no meaning), --reverse on and off, against the model (kept rows = rows whose key is / is not a split k-mer of the weed file): weed sets = every window of length k..k+4 of every sample record on a position grid, every union of two such windows from a reduced grid (this includes a record of length exactly k next to a longer one), each as is / reverse-complemented / with an N substituted / lower-case, plus an unrelated sequence, a whole sample and a weed file without any k-mer; every weed FASTA is written in one of four layouts derived from its content (one line; lines of 5; lines of 4 with CRLF; CRLF with header text and no final line end) (must be refused, file unchanged). Every kept row must be byte-identical incl. its stored count, names unchanged; a second application must change nothing; weed and reverse-weed must partition the file. CLI family for in-place vs -o. Non-trivial = the weed set removes at least one and keeps at least one k-mer.".into(),
         assumptions: vec!["--min-freq 0 (the default 0.9 additionally applies a frequency filter, checked under C10)".into()],
         exhaustive_when_uncapped: true,
     }
@@ -51,7 +51,8 @@ fn variants(seqs: &[Vec<u8>]) -> Vec<(&'static str, Vec<Vec<u8>>)> {
 fn check_weed(rep: &mut Report, f: &File, seqs: &[Vec<u8>], what: &str) {
     for reverse in [false, true] {
         rep.evaluations += 1;
-        let wpath = scratch::write("c13_weed.fa", &scratch::fasta(seqs));
+        // the weed FASTA in one of four layouts (wrapping, CRLF, header text) derived from its content
+        let wpath = scratch::write("c13_weed.fa", &scratch::fasta_layout(seqs, scratch::natural_layout(seqs)));
         let out = scratch::path("c13_out.skf");
         let _ = std::fs::remove_file(&out);
         let wk = build(seqs, f.k, f.rc);
@@ -217,7 +218,7 @@ pub fn run(ctx: &Ctx, rep: &mut Report) {
                 let dir = scratch::path("c13cli");
                 let _ = std::fs::create_dir_all(&dir);
                 let w = wins[wins.len() / 2].clone();
-                std::fs::write(format!("{dir}/w.fa"), scratch::fasta(&[w.clone()])).unwrap();
+                std::fs::write(format!("{dir}/w.fa"), scratch::fasta_layout(&[w.clone()], scratch::natural_layout(&[w.clone()]))).unwrap();
                 for reverse in [false, true] {
                     for inplace in [true, false] {
                         rep.evaluations += 1;
